@@ -205,7 +205,8 @@ def run(pid, tier, seed, model_ok, replay):
         for i in range(6 if tier == "quick" else 80):
             scases.append((f"iterstress{i}", [f"cfg kind=stress cap={srng.choice(['none', 1000])} hasher={srng.choice(['id', 'mul:11400714819323198485'])}",
                                               f"ITER writers={srng.choice([1, 2, 3, 4])} iters={srng.choice([1, 2, 3])} keys={srng.choice([8, 40, 64, 300])} "
-                                              f"rounds={srng.choice([100, 300])} seed={srng.randrange(10**6)}"]))
+                                              f"rounds={srng.choice([100, 300])} seed={srng.randrange(10**6)}"
+                                              + (f" churn={srng.choice([1, 2])}" if i % 2 else "")]))
         out = C.run_impl(scases, timeout=300)
         iters = 0
         for name, lines in scases:
@@ -218,7 +219,7 @@ def run(pid, tier, seed, model_ok, replay):
                 iters += int(ok[0].split("=")[1])
         res["evaluations"] += len(scases)
         res["distribution"]["iterator_stress_iterations"] = iters
-        res["rule"] += "; plus real-thread stress of k writer threads updating a fixed key set against m iterating threads (every iteration must yield every key exactly once with a value current during the iteration)"
+        res["rule"] += "; plus real-thread stress of k writer threads updating a fixed key set against m iterating threads (every iteration must yield every key exactly once with a value current during the iteration); in every other run 1-2 more threads insert and invalidate keys outside that set all the time, and an iterator created before a burst of inserts is drained after it"
     return res
 
 
